@@ -188,6 +188,8 @@ class RealSem:
     def float_arith(self, op, a, b, sort):
         sym = {"Add": "+", "Sub": "-", "Mul": "*", "Div": "/"}[op]
         u = U64 if sort == "f64" else U32
+        if op in ("Add", "Mul") and b < a:
+            a, b = b, a       # IEEE addition and multiplication are commutative: one term for both orders
         if op in ("Mul", "Div"):
             t = self.define("Real", self.product(op, a, b), "t")
         else:
